@@ -105,28 +105,84 @@ def data_type_of(fam, opts):
     row = opts.get("row")
     if fam in ("phylip", "fasta") and row and opts.get("rowidx", 0) > 0:
         dt = row["dt"]
-        return "dna" if (fam == "fasta" and dt == "standard") else dt
+        # FASTA: "standard" needs a caller supplied alphabet; "continuous" is listed by the reader's
+        # docstring but fails with AttributeError on every document (default_state_alphabet is None):
+        # reported, not driven, so that the call-site class of fastareader._read stays discriminating
+        return "dna" if (fam == "fasta" and dt in ("standard", "continuous")) else dt
     return opts.get("data_type", "dna")
 
 
+SOURCE_KINDS = ["data", "stringio", "namedfile", "fdstream", "path"]
+TMP_PREFIX = "c20_src_"
+
+
+class _Source(object):
+    """The text as one of the source kinds the public API accepts: data=<str>, file=<StringIO>,
+    file=<named text file>, file=<stream whose .name is a file descriptor number
+    (tempfile.TemporaryFile)>, path=<file name>.  Temporary files live under /tmp/c20_src_*."""
+
+    def __init__(self, kind, text):
+        import os
+        import tempfile
+        self.kind, self.text, self.path, self.fh = kind, text, None, None
+        if kind in ("namedfile", "path"):
+            fd, self.path = tempfile.mkstemp(prefix=TMP_PREFIX, suffix=".txt", dir="/tmp")
+            with os.fdopen(fd, "w") as f:
+                f.write(text)
+
+    def kwargs(self):
+        import tempfile
+        if self.kind == "data":
+            return {"data": self.text}
+        if self.kind == "stringio":
+            return {"file": io.StringIO(self.text)}
+        if self.kind == "path":
+            return {"path": self.path}
+        if self.kind == "namedfile":
+            self.fh = open(self.path, "r")
+        else:
+            self.fh = tempfile.TemporaryFile(mode="w+", prefix=TMP_PREFIX, dir="/tmp")
+            self.fh.write(self.text)
+            self.fh.seek(0)
+        return {"file": self.fh}
+
+    def yielder_files(self):
+        kw = self.kwargs()
+        return [kw["path"]] if "path" in kw else [kw["file"] if "file" in kw else io.StringIO(self.text)]
+
+    def close(self):
+        import os
+        try:
+            if self.fh is not None:
+                self.fh.close()
+        except Exception:
+            pass
+        if self.path is not None:
+            try:
+                os.remove(self.path)
+            except OSError:
+                pass
+
+
 def make_call(dendropy, entry, fam, text, opts):
-    """-> zero-argument callable performing the read through the public API."""
+    """-> (zero-argument callable performing the read through the public API, source to close)."""
     schema = fam
     dt = data_type_of(fam, opts)
     kw = reader_kwargs(fam, opts)
+    src = _Source(opts.get("src", "data"), text)
     if entry == "Tree.get":
-        return lambda: dendropy.Tree.get(data=text, schema=schema, **kw)
+        return (lambda: dendropy.Tree.get(schema=schema, **dict(kw, **src.kwargs()))), src
     if entry == "TreeList.get":
-        return lambda: dendropy.TreeList.get(data=text, schema=schema, **kw)
+        return (lambda: dendropy.TreeList.get(schema=schema, **dict(kw, **src.kwargs()))), src
     if entry == "DataSet.get":
         if fam in ("phylip", "fasta"):
-            return lambda: dendropy.DataSet.get(data=text, schema=schema, data_type=dt, **kw)
-        return lambda: dendropy.DataSet.get(data=text, schema=schema, **kw)
+            return (lambda: dendropy.DataSet.get(schema=schema, data_type=dt, **dict(kw, **src.kwargs()))), src
+        return (lambda: dendropy.DataSet.get(schema=schema, **dict(kw, **src.kwargs()))), src
     if entry == "Matrix.get":
         cls = _matrix_class(dendropy, dt)
-        return lambda: cls.get(data=text, schema=schema, **kw)
+        return (lambda: cls.get(schema=schema, **dict(kw, **src.kwargs()))), src
     if entry == "Tree.yield_from_files":
-        return lambda: list(dendropy.Tree.yield_from_files(files=[io.StringIO(text)], schema=schema, **kw))
+        return (lambda: list(dendropy.Tree.yield_from_files(files=src.yielder_files(), schema=schema, **kw))), src
     raise ValueError(entry)
 
 
@@ -291,10 +347,13 @@ def project_result(entry, val):
 def run_entry(dendropy, entry, fam, text, opts, pump_k=0):
     """One read under the budget -> the Read event (without the token fields)."""
     limit = budget_for(text, pump_k)
-    call = make_call(dendropy, entry, fam, text, opts)
-    kind, val, steps = run_with_budget(call, limit)
+    call, src = make_call(dendropy, entry, fam, text, opts)
+    try:
+        kind, val, steps = run_with_budget(call, limit)
+    finally:
+        src.close()
     ev = {"action": "Read", "entry": entry, "fam": fam, "kind": kind, "exc": "", "mro": [], "site": "",
-          "trees": [], "mats": [], "big": 0, "steps": int(steps), "limit": int(limit)}
+          "src": opts.get("src", "data"), "trees": [], "mats": [], "big": 0, "steps": int(steps), "limit": int(limit)}
     if kind == "ok":
         ev["trees"], ev["big"], ev["mats"] = project_result(entry, val)
     elif kind == "exc":
@@ -302,5 +361,9 @@ def run_entry(dendropy, entry, fam, text, opts, pump_k=0):
         ev["mro"] = [c.__name__ for c in type(val).__mro__]
         ev["site"] = exception_site(val)
     else:
-        ev["site"] = locate_loop(make_call(dendropy, entry, fam, text, opts), max(20000, limit // 2)) or str(val)
+        call2, src2 = make_call(dendropy, entry, fam, text, opts)
+        try:
+            ev["site"] = locate_loop(call2, max(20000, limit // 2)) or str(val)
+        finally:
+            src2.close()
     return ev
